@@ -62,7 +62,7 @@ fn default_units(prop: &str, tier: Tier) -> u64 {
         ("C10", Tier::Quick) => 2_000,
         ("C10", Tier::Thorough) => 60_000,
         ("C19", Tier::Quick) => 500,
-        ("C19", Tier::Thorough) => 8_000,
+        ("C19", Tier::Thorough) => 5_000,
         _ => 100,
     }
 }
